@@ -4,6 +4,8 @@ mod cfg_exec;
 mod conc_exec;
 mod intern;
 #[cfg(not(feature = "stateless"))]
+mod hook_exec;
+#[cfg(not(feature = "stateless"))]
 mod ffi_exec;
 #[cfg(not(feature = "stateless"))]
 mod hash_exec;
@@ -42,6 +44,10 @@ fn main() {
     quiet_panics();
     match args[1].as_str() {
         "tree" => cmd_tree(&args),
+        #[cfg(not(feature = "stateless"))]
+        "hookfacts" => hook_exec::run(arg(&args, "--in").expect("--in"), arg(&args, "--out").expect("--out")),
+        #[cfg(not(feature = "stateless"))]
+        "hookreplay" => hook_exec::replay(arg(&args, "--events").expect("--events")),
         "cfgrun" => cmd_cfgrun(&args),
         #[cfg(not(feature = "stateless"))]
         "witness" => {
